@@ -3,9 +3,10 @@
 # Applies a one-line mutation to a scratch copy of /repo and runs govc on it.
 set -e
 D=$(mktemp -d /var/tmp/govc-mut-XXXXXX)
-trap 'rm -rf "$D"' EXIT
+trap 'rm -rf "$D" "$D.out"' EXIT
 rsync -a --exclude .git /repo/ "$D/"
 sed -i "$2" "$D/$1"
 if diff -q "/repo/$1" "$D/$1" >/dev/null; then echo "MUTATION DID NOT APPLY"; exit 3; fi
 shift 2
-/verif/bin/govc "$@" --repo "$D" 2>&1 | grep -v "cover-ok\|discharged\|^note" | sed "s|$D|REPO|g" | cut -c1-220 | head -20
+EXTRA=""; [ "$1" = check ] && { mkdir -p "$D.out"; EXTRA="--verif $D.out"; }
+/verif/bin/govc "$@" --repo "$D" $EXTRA 2>&1 | grep -v "cover-ok\|discharged\|^note" | sed "s|$D|REPO|g" | cut -c1-220 | head -20
